@@ -187,3 +187,33 @@ def declare(reg):
             props=["C01"],
             note="verified up to the point where the command queues on the mailbox (cut at `async with cmd.ready_and_okay(self.mbox)`): the gate in front of the command body",
         )
+
+    # ---- Authenticated.do_close (C05, C01): CLOSE of an EXAMINEd mailbox removes nothing; otherwise a plain, silent EXPUNGE -------------
+    reg.contract(
+        C, "Authenticated.do_close", params={"self": "ref:Authenticated", "cmd": "ref:IMAPClientCommand"},
+        requires={"disk-has-keys": f"is_none(self.mbox) or subset(elems({MB}.msg_keys), {MB}.mailbox.g_keys)"},
+        ensures={
+            "back-to-authenticated": "self.state == ClientState.AUTHENTICATED and is_none(self.mbox)",
+            "queue-dropped": "implies(self.examine or is_none(old(self.mbox)), len(self.pending_notifications) == 0)",
+            # the session is no longer registered with the mailbox it had selected: no further notifications reach it
+            "unregistered": "implies(not is_none(old(self.mbox)), self.name not in some(old(self.mbox)).clients)",
+            # read-only selection: nothing is removed, in memory or in the folder
+            "examine-removes-nothing": "implies(self.examine and not is_none(old(self.mbox)), same(some(old(self.mbox)).msg_keys, old(some(self.mbox).msg_keys)) and "
+                                       "same(some(old(self.mbox)).uids, old(some(self.mbox).uids)) and some(old(self.mbox)).mailbox.g_keys == old(some(self.mbox).mailbox.g_keys))",
+            # no untagged response is sent to the closing session
+            "silent": "implies(self.examine or is_none(old(self.mbox)), same(self.client.g_out, old(self.client.g_out)))",
+        },
+        raises={"No": None, "Bad": None},
+        exc_ensures={"refused-before-selected": "implies(old(self.state) != ClientState.SELECTED, same(self.pending_notifications, old(self.pending_notifications)) and self.state == old(self.state))"},
+        modifies=["self.pending_notifications", "self.state", "self.mbox", "Mailbox.clients", "*.pending_notifications", "ClientProxy.g_out", "IMAPClientCommand.completed",
+                  "Mailbox.msg_keys", "Mailbox.uids", "Mailbox.num_msgs", "Mailbox.num_recent", "Mailbox._msg_key_to_idx", "Mailbox._uid_to_idx", "Mailbox.sequences",
+                  "Mailbox.optional_resync", "MH.g_keys", "MH.g_seqs", "Mailbox.g_db_seqs", "Mailbox.g_db_exists", "Mailbox.g_db_uid_vv", "Mailbox.g_db_next_uid", "Mailbox.g_db_uids",
+                  "Mailbox.g_db_msg_keys", "Mailbox.g_db_subscribed", "Mailbox.g_db_num_msgs"],
+        ghost={"call_asserts": {"expunge": {
+            # CLOSE expunges like a plain EXPUNGE: every \\Deleted message, no UID restriction -- and never for a read-only selection
+            "plain-expunge-only": "is_none(arg_uid_msg_set) and arg_check_deleted",
+            "never-when-examined": "not self.examine",
+        }}},
+        is_async=True,
+        props=["C05", "C01"],
+    )
